@@ -8,6 +8,8 @@ import (
 	"go/types"
 	"sort"
 	"strings"
+
+	"golang.org/x/tools/go/cfg"
 )
 
 // POSTING-PADDING (C08): posting-list blocks are filled up with a padding byte, and the reader
@@ -25,7 +27,7 @@ func init() {
 		IR:    "ast",
 		Props: []string{"C08"},
 		Floor: 2,
-		Doc: "the byte that pads posting-list blocks has its top bit set, so it can never be the final byte of a varint, and the iterator recognises padding by comparing with the same constant",
+		Doc:   "the byte that pads posting-list blocks has its top bit set, so it can never be the final byte of a varint, and the iterator recognises padding by comparing with the same constant",
 		Run:   runPostingPadding,
 	})
 	register(&Rule{
@@ -208,4 +210,305 @@ func runTileCommands(c *Ctx) []Obligation {
 	}
 	out = append(out, all)
 	return out
+}
+
+// DECODE-ADVANCES (C08, C06): an iterator over an encoded list keeps a read position and a current
+// value. Whenever it decodes a value into its *current value* it has consumed that value: the read
+// position must move past it, or the next call decodes the same bytes again and yields the element
+// twice. Decoding into a local (a peek, as in the block search of Advance) does not consume.
+//
+// Slots (by shape, package ingest/compact): in every method of a type that has a Next method, each
+// assignment `X.v, n = binary.Uvarint(X.buf[X.pos:])` (or Varint) whose first target is a field of
+// the receiver. Obligation: the byte count is not discarded (n is not the blank identifier) and the
+// same block adds it to the position field the slice expression starts at (X.pos += n).
+func init() {
+	register(&Rule{
+		Name:  "DECODE-ADVANCES",
+		IR:    "ast",
+		Props: []string{"C08", "C06"},
+		Floor: 2,
+		Doc: "in the posting-list iterator every varint decoded into the iterator's current value is consumed: its byte count is kept and added to the read position in the same block " +
+			"(a decode into a local is a peek and is exempt)",
+		Run: runDecodeAdvances,
+	})
+}
+
+func runDecodeAdvances(c *Ctx) []Obligation {
+	var out []Obligation
+	p := c.Pkg("ingest/compact")
+	if p == nil {
+		return out
+	}
+	info := p.TypesInfo
+	hasNext := map[*types.Named]bool{}
+	for _, fd := range c.FuncDecls(p) {
+		if fd.Recv != nil && fd.Name.Name == "Next" {
+			if obj, _ := info.Defs[fd.Name].(*types.Func); obj != nil {
+				if n := namedOf(obj.Type().(*types.Signature).Recv().Type()); n != nil {
+					hasNext[n] = true
+				}
+			}
+		}
+	}
+	for _, fd := range c.FuncDecls(p) {
+		if fd.Recv == nil || len(fd.Recv.List) != 1 || len(fd.Recv.List[0].Names) != 1 {
+			continue
+		}
+		obj, _ := info.Defs[fd.Name].(*types.Func)
+		if obj == nil {
+			continue
+		}
+		rn := namedOf(obj.Type().(*types.Signature).Recv().Type())
+		if rn == nil || !hasNext[rn] {
+			continue
+		}
+		recv := info.Defs[fd.Recv.List[0].Names[0]]
+		isRecvField := func(e ast.Expr) bool {
+			sel, ok := ast.Unparen(e).(*ast.SelectorExpr)
+			if !ok {
+				return false
+			}
+			id, ok := ast.Unparen(sel.X).(*ast.Ident)
+			return ok && info.Uses[id] == recv
+		}
+		name := c.FuncName(p, fd)
+		ord := 0
+		ast.Inspect(fd.Body, func(n ast.Node) bool {
+			blk, ok := n.(*ast.BlockStmt)
+			if !ok {
+				return true
+			}
+			for _, st := range blk.List {
+				as, ok := st.(*ast.AssignStmt)
+				if !ok || len(as.Lhs) != 2 || len(as.Rhs) != 1 || !isRecvField(as.Lhs[0]) {
+					continue
+				}
+				call, ok := ast.Unparen(as.Rhs[0]).(*ast.CallExpr)
+				if !ok || len(call.Args) != 1 {
+					continue
+				}
+				fn := calleeFunc(info, call)
+				if fn == nil || fn.Pkg() == nil || fn.Pkg().Path() != "encoding/binary" || (fn.Name() != "Uvarint" && fn.Name() != "Varint") {
+					continue
+				}
+				se, ok := ast.Unparen(call.Args[0]).(*ast.SliceExpr)
+				if !ok || se.Low == nil || !isRecvField(se.Low) {
+					continue
+				}
+				ord++
+				ob := Obligation{Key: fmt.Sprintf("%s#%d", name, ord), Pos: c.Position(as.Pos()), Status: OK}
+				cnt, _ := as.Lhs[1].(*ast.Ident)
+				switch {
+				case cnt == nil || cnt.Name == "_":
+					ob.Status = Violation
+					ob.Detail = fmt.Sprintf("%s decodes the iterator's current value from %s but discards the number of bytes read: the read position %s still points at this value, so the next call yields it again",
+						nodeText(c.Fset, as), nodeText(c.Fset, call.Args[0]), nodeText(c.Fset, se.Low))
+				default:
+					cobj := info.Defs[cnt]
+					if cobj == nil {
+						cobj = info.Uses[cnt]
+					}
+					advanced := false
+					for _, st2 := range blk.List {
+						as2, ok := st2.(*ast.AssignStmt)
+						if !ok || len(as2.Lhs) != 1 || len(as2.Rhs) != 1 || as2.Pos() < as.Pos() {
+							continue
+						}
+						if as2.Tok == token.ADD_ASSIGN && sameExpr(info, as2.Lhs[0], se.Low) {
+							if id, ok := ast.Unparen(as2.Rhs[0]).(*ast.Ident); ok && info.Uses[id] == cobj {
+								advanced = true
+							}
+						}
+					}
+					// the count may be declared in an enclosing block and added after an if/else: look in the enclosing function too
+					if !advanced {
+						ast.Inspect(fd.Body, func(m ast.Node) bool {
+							as2, ok := m.(*ast.AssignStmt)
+							if ok && as2.Tok == token.ADD_ASSIGN && len(as2.Lhs) == 1 && len(as2.Rhs) == 1 && as2.Pos() > as.Pos() && sameExpr(info, as2.Lhs[0], se.Low) {
+								if id, ok := ast.Unparen(as2.Rhs[0]).(*ast.Ident); ok && info.Uses[id] == cobj {
+									advanced = true
+								}
+							}
+							return true
+						})
+					}
+					if advanced {
+						ob.Detail = fmt.Sprintf("%s: the byte count %s is added to %s", nodeText(c.Fset, as), cnt.Name, nodeText(c.Fset, se.Low))
+					} else {
+						ob.Status = Violation
+						ob.Detail = fmt.Sprintf("%s decodes the iterator's current value but %s is never advanced by %s", nodeText(c.Fset, as), nodeText(c.Fset, se.Low), cnt.Name)
+					}
+				}
+				out = append(out, ob)
+			}
+			return true
+		})
+	}
+	return out
+}
+
+// SAVE-BEFORE-WRITE (C08, C06): "Advance doesn't move the iterator when it fails": the iterator
+// saves some of its fields in locals (`ons, oi, ovalue := i.ns, i.i, i.value`), searches, and on
+// failure puts the saved values back. The restore re-establishes the state the iterator was in
+// only if the save really was taken before the search started to write those fields: a direct
+// assignment to a saved field that can reach the save makes the "saved" value a value of the
+// search, and the failing Advance leaves the iterator somewhere else.
+//
+// Slots (by shape, packages ingest/compact and search): in a method, a tuple definition of at
+// least two locals from receiver fields, in one statement, that is later mirrored by one assignment
+// of exactly those locals back to the same fields (single-variable hand-offs such as
+// `node := t.node; …; t.node = node` are cursor moves, not snapshots). Obligation per pair: no direct assignment to one of the
+// saved fields is both positioned before the save and able to reach it on the control-flow graph.
+// (Calls of the receiver's own methods before the save are the iterator's initial positioning and
+// are not counted.)
+func init() {
+	register(&Rule{
+		Name:  "SAVE-BEFORE-WRITE",
+		IR:    "cfg",
+		Props: []string{"C08", "C06"},
+		Floor: 1,
+		Doc: "where an iterator method saves receiver fields in locals and later assigns exactly those locals back (restore on failure), no direct assignment to a saved field reaches the save: " +
+			"the values restored are the ones the iterator had before the search began to move it",
+		Run: runSaveBeforeWrite,
+	})
+}
+
+func runSaveBeforeWrite(c *Ctx) []Obligation {
+	var out []Obligation
+	for _, rel := range []string{"ingest/compact", "search"} {
+		p := c.Pkg(rel)
+		if p == nil {
+			continue
+		}
+		info := p.TypesInfo
+		for _, fd := range c.FuncDecls(p) {
+			if fd.Recv == nil || len(fd.Recv.List) != 1 || len(fd.Recv.List[0].Names) != 1 {
+				continue
+			}
+			recv := info.Defs[fd.Recv.List[0].Names[0]]
+			fieldOf := func(e ast.Expr) types.Object {
+				sel, ok := ast.Unparen(e).(*ast.SelectorExpr)
+				if !ok {
+					return nil
+				}
+				if id, ok := ast.Unparen(sel.X).(*ast.Ident); ok && info.Uses[id] == recv {
+					if s := info.Selections[sel]; s != nil {
+						return s.Obj()
+					}
+				}
+				return nil
+			}
+			name := c.FuncName(p, fd)
+			// saves: locals := fields
+			type save struct {
+				stmt   *ast.AssignStmt
+				locals []types.Object
+				fields []types.Object
+			}
+			var saves []save
+			inspectShallow(fd.Body, func(n ast.Node) bool {
+				as, ok := n.(*ast.AssignStmt)
+				if !ok || as.Tok != token.DEFINE || len(as.Lhs) != len(as.Rhs) || len(as.Lhs) < 2 {
+					return true // a snapshot of the iterator's state is a tuple of at least two fields
+				}
+				var s save
+				s.stmt = as
+				for i, l := range as.Lhs {
+					id, ok := l.(*ast.Ident)
+					f := fieldOf(as.Rhs[i])
+					if !ok || f == nil || info.Defs[id] == nil {
+						return true
+					}
+					s.locals = append(s.locals, info.Defs[id])
+					s.fields = append(s.fields, f)
+				}
+				saves = append(saves, s)
+				return true
+			})
+			ord := 0
+			for _, s := range saves {
+				// mirrored restore
+				restored := false
+				inspectShallow(fd.Body, func(n ast.Node) bool {
+					as, ok := n.(*ast.AssignStmt)
+					if !ok || as.Tok != token.ASSIGN || len(as.Lhs) != len(s.fields) || len(as.Rhs) != len(s.fields) || as.Pos() < s.stmt.Pos() {
+						return true
+					}
+					for i := range as.Lhs {
+						id, ok := ast.Unparen(as.Rhs[i]).(*ast.Ident)
+						if !ok || info.Uses[id] != s.locals[i] || fieldOf(as.Lhs[i]) != s.fields[i] {
+							return true
+						}
+					}
+					restored = true
+					return true
+				})
+				if !restored {
+					continue
+				}
+				ord++
+				ob := Obligation{Key: fmt.Sprintf("%s#%d", name, ord), Pos: c.Position(s.stmt.Pos()), Status: OK}
+				g := newCFG(info, fd.Body)
+				saveLoc, okLoc := findNode(g, s.stmt)
+				var bad []string
+				inspectShallow(fd.Body, func(n ast.Node) bool {
+					as, ok := n.(*ast.AssignStmt)
+					if !ok || as == s.stmt || as.Pos() >= s.stmt.Pos() {
+						return true
+					}
+					for _, l := range as.Lhs {
+						f := fieldOf(l)
+						if f == nil {
+							continue
+						}
+						for _, sf := range s.fields {
+							if f != sf {
+								continue
+							}
+							// can this write reach the save?
+							wl, ok := findNode(g, as)
+							if !ok || !okLoc {
+								bad = append(bad, fmt.Sprintf("%s at %s (reachability undecided)", nodeText(c.Fset, as), c.Position(as.Pos())))
+								continue
+							}
+							if cfgReaches(g, wl, saveLoc) {
+								bad = append(bad, fmt.Sprintf("%s at %s", nodeText(c.Fset, as), c.Position(as.Pos())))
+							}
+						}
+					}
+					return true
+				})
+				if len(bad) > 0 {
+					ob.Status = Violation
+					ob.Detail = fmt.Sprintf("%s saves %d field(s) for a later restore, but a saved field has already been written on a path to the save: %s — what is restored on failure is not the state the iterator was in", name, len(s.fields), strings.Join(bad, "; "))
+				} else {
+					ob.Detail = fmt.Sprintf("%s saves %d field(s) at %s before any direct write to them, and restores exactly those on failure", name, len(s.fields), c.Position(s.stmt.Pos()))
+				}
+				out = append(out, ob)
+			}
+		}
+	}
+	return out
+}
+
+// cfgReaches reports whether control can flow from location a to location b (same block: a before b).
+func cfgReaches(g *cfg.CFG, a, b nodeLoc) bool {
+	if a.b == b.b && a.i < b.i {
+		return true
+	}
+	seen := map[int32]bool{}
+	var walk func(bi int32) bool
+	walk = func(bi int32) bool {
+		if seen[bi] {
+			return false
+		}
+		seen[bi] = true
+		for _, s := range g.Blocks[bi].Succs {
+			if s.Index == b.b.Index || walk(s.Index) {
+				return true
+			}
+		}
+		return false
+	}
+	return walk(a.b.Index)
 }
